@@ -458,6 +458,33 @@ def check (c):
         fa, fb = 10 ** (np.maximum (ga, -300) / 20), 10 ** (np.maximum (gb, -300) / 20)
         lin = float (np.abs (fa - fb).max () / fa.max ())
         judge ('gain:' + name, lin, 2 * tol + d * observe.power_ratio (mv), 'variant %s: field pattern differs by %.3g of the main beam' % (name, lin))
+    # ---- a wire cut into two objects whose facing ends coincide only within the matching tolerance (the second piece
+    # starts 0.75 tolerances away from the cut, the difference spread over all three coordinates): the pieces are
+    # joined (documented rule: closer than 1e-3 of the shortest segment) - same number of pulses, same currents up to
+    # the coarse level of 5 % (the fine comparison of approximately joined ends is the fuzzy stratum's business)
+    cut = [wi for wi, g in enumerate (spec ['geo']) if g ['k'] == 'w' and g ['n'] >= 2 and not g.get ('taper')]
+    if cut and not spec.get ('sym') and not spec.get ('dist'):
+        wi  = cut [int (common.sha ([g ['n'] for g in spec ['geo']]), 16) % len (cut)]
+        sv  = variant (spec, split = [[wi, 0.5]])
+        tl  = 1e-3 * min (float (s.seg_len) for g in m0.geo for s in g.segments)
+        pc  = sv ['geo'][-1]
+        srcp = [np.array (x ['at']) for x in (spec.get ('src') or []) + (spec.get ('loads') or []) if 'at' in x]
+        a_, b_ = np.array (pc ['p1']), np.array (pc ['p2'])
+        carries = any (np.linalg.norm (np.cross (b_ - a_, q - a_)) < 1e-9 * np.linalg.norm (b_ - a_) ** 2 and 1e-9 < (q - a_) @ (b_ - a_) / ((b_ - a_) @ (b_ - a_)) <= 1 + 1e-9 for q in srcp)
+        if not carries:
+            pc ['p1'] = [float (x) for x in np.array (pc ['p1']) + 0.75 * tl * np.array ([1.0, -1.0, 1.0 if m0.media is None else 0.0]) / np.sqrt (3.0 if m0.media is None else 2.0)]
+            try:
+                mv = gen.build (sv)
+                mon ['approximate-cut'] = 1
+                if len (mv.pulses) != len (m0.pulses):
+                    viol.append (dict (monitor = 'approximate-cut', key = 'approximate-cut-not-joined', msg = 'wire %d cut into two objects whose facing ends are 0.75 matching tolerances apart: %d pulses, the uncut structure has %d' % (wi + 1, len (mv.pulses), len (m0.pulses))))
+                else:
+                    observe.solve (mv)
+                    d = observe.cmp_fields (o0 ['field'], observe.current_field (mv, unit = observe.min_seg (m0)))
+                    if d is None or d > 0.05:
+                        viol.append (dict (monitor = 'approximate-cut', key = 'approximate-cut-currents', msg = 'wire %d cut into two objects whose facing ends are 0.75 matching tolerances apart: currents differ by %r of the largest' % (wi + 1, d)))
+            except gen.Locate_Error:
+                pass
     # ---- mirror symmetry
     if spec.get ('sym'):
         R  = np.array (spec ['sym']['R'])
